@@ -63,9 +63,14 @@ class Programs:
         if f == 'fork':
             how = rng.choice(['slice', 'slice1', 'labelslice', 'diff', 'cumsum', 'mul', 'take_list', 'reindex_same', 'dropna', 'sort_axis', 'copy',
                               # results whose axes are BUILT FROM the array's labels by another object (repeat / interpolation / reindexing onto it)
-                              'broadcast_scalar', 'broadcast_reduced', 'interp_like', 'reindex_like', 'broadcast_scalar', 'interp_like'])
+                              'broadcast_scalar', 'broadcast_reduced', 'interp_like', 'reindex_like', 'broadcast_scalar', 'interp_like',
+                              # ... or from the array's own AXIS OBJECTS handed over as labels
+                              'interp_axis_obj', 'ctor_axis_pairs', 'reindex_axis_obj'])
+            if rng.random() < 0.5:
+                how = rng.choice(['broadcast_scalar', 'broadcast_reduced', 'interp_like', 'interp_axis_obj', 'ctor_axis_pairs', 'interp_axis_obj', 'ctor_axis_pairs'])
             stats['fork_how'][how] += 1
-            j = rng.randrange(nd); l0 = a['labels'][j][0]
+            j = rng.randrange(nd) if how not in ('interp_axis_obj', 'reindex_axis_obj') else 0
+            l0 = a['labels'][j][0]
             return ['fork_edit', how, j, (l0 + 1000) if isinstance(l0, (int, float)) and not isinstance(l0, bool) else 'zz']
         if f == 'transpose':
             p = list(range(nd)); rng.shuffle(p); return ['transpose', [dims[j] for j in p]] if nd else ['T']
@@ -147,7 +152,7 @@ class Programs:
             # a second live object edited at the very end: the original's caches are what the probes then see
             try: fork_ok = cur.ndim and all(ax.size for ax in cur.axes) and cur.dtype.kind in 'fi' and not any('members' in axis_json(ax) for ax in cur.axes)
             except Exception: fork_ok = False
-            if rng.random() < 0.25 and fork_ok:
+            if rng.random() < 0.4 and fork_ok:
                 try:
                     stats['program_op']['fork'] += 1
                     o = Programs.random_op(rng, in_json(cur), stats, force='fork')
@@ -189,6 +194,13 @@ class Programs:
                 with np.errstate(all='ignore'):
                     fresh = D.DimArray(final.values.copy(), axes=[D.Axis(ax.values.copy(), ax.name, **ax.attrs) for ax in final.axes], **final.attrs)
                     c['_stale'] = probe_difference(final, fresh)
+                    if c['_stale'] is None:
+                        # the cached answer of every axis must be the answer its current labels give
+                        from dimarray.core.indexing import is_monotonic
+                        for ax in final.axes:
+                            cached = getattr(ax, '_monotonic', None)
+                            if cached is not None and ax.values.dtype.kind != 'O' and bool(cached) != bool(is_monotonic(ax.values)):
+                                c['_stale'] = 'is_monotonic() of axis %r (cached %r, its labels %r say %r)' % (ax.name, cached, ax.values.tolist(), bool(is_monotonic(ax.values)))
         return res
 
     @staticmethod
@@ -274,6 +286,10 @@ class _:
             num = [ax.values.dtype.kind in 'if' and ax.size > 0 for ax in a.axes]
             r = (a * 1).interp_like(a) if all(num) else a.ix[0:]
         elif how == 'reindex_like': r = (a * 1).reindex_like(a)
+        elif how == 'interp_axis_obj':
+            r = (a * 1).interp_axis(a.axes[0], axis=a.dims[0]) if a.axes[0].values.dtype.kind in 'if' and a.axes[0].size else a.ix[0:]
+        elif how == 'ctor_axis_pairs': r = da().DimArray(a.values.copy(), axes=[(ax.name, ax) for ax in a.axes])
+        elif how == 'reindex_axis_obj': r = (a * 1).reindex_axis(a.axes[0])
         else: raise ValueError(how)
         for ax in r.axes: ax.is_monotonic()
         if r.ndim and r.axes[j % r.ndim].size and not any(r.axes[j % r.ndim] is ax for ax in a.axes):
